@@ -3,6 +3,7 @@ use crate::{Ctx, Out};
 pub mod c01;
 pub mod c02;
 pub mod c04;
+pub mod c05;
 pub mod c13;
 pub mod c16;
 pub mod c17;
@@ -24,6 +25,7 @@ pub fn run(ctx: &Ctx, out: &mut Out) -> bool {
         "C02" => c02::run(ctx, out),
         "C16" => c16::run(ctx, out),
         "C04" => c04::run(ctx, out),
+        "C05" => c05::run(ctx, out),
         "C13" => c13::run(ctx, out),
         "C17" => c17::run(ctx, out),
         "C18" => c18::run(ctx, out),
